@@ -629,7 +629,7 @@ Proof.
   apply bind_inv; [destruct multi; [exact I|apply Inv_merge; exact I]|].
   intros s1 I1. apply bind_inv; [destruct sing; [exact I1|apply Inv_remove_edges_from; exact I1]|].
   intros s2 I2. apply bind_inv; [destruct iso; [exact I2|apply Inv_remove_nodes_from; exact I2]|].
-  intros s3 I3. apply bind_inv; [destruct conn; [apply Inv_lcc; exact I3|exact I3]|].
+  intros s3 I3. apply bind_inv; [destruct (conn && negb (match h_node s3 with [] => true | _ => false end)); [apply Inv_lcc; exact I3|exact I3]|].
   intros s4 I4. destruct rl; [apply Inv_relabel|exact I4].
 Qed.
 
